@@ -5,6 +5,9 @@
 //! `is_connected` / `connected_nodes` from other runtime threads.
 //! `duo=1`: two concurrent callers on one node sharing its cached connection;
 //! caller A is never answered, caller B (sent later) is answered in time.
+//! `cut=<spec>` (async): before the ordinary scenario on a node that is healthy throughout,
+//! one call on the cold node is abandoned: its future is polled up to a cut point (before /
+//! during / after the TCP connect, while waiting for the reply) and then dropped.
 use repe::{AsyncFleet, Fleet, FleetOptions, NodeConfig, RepeError, RetryPolicy};
 use repe_verif_harness::*;
 use std::cell::{Cell, RefCell};
@@ -58,18 +61,44 @@ struct Node {
     conns: Mutex<Vec<TcpStream>>,
     requests: AtomicU64,
     stop: AtomicBool,
+    /// while set the node accepts nothing (a node that is slow to accept: see `start_busy`)
+    hold: AtomicBool,
 }
 
 impl Node {
-    fn start() -> Arc<Node> {
-        let l = TcpListener::bind("127.0.0.1:0").unwrap();
+    fn start() -> Arc<Node> { Node::start_on(TcpListener::bind("127.0.0.1:0").unwrap(), false) }
+    /// A node that is up but slow to accept: its accept queue (backlog 0) is filled with idle
+    /// connections and nothing is accepted until `release`, so a further connection attempt stays
+    /// in the TCP handshake (its SYN is not answered). Returns the filler connections and whether a
+    /// connection attempt was really seen pending.
+    fn start_busy() -> (Arc<Node>, Vec<TcpStream>, bool) {
+        let sock = socket2::Socket::new(socket2::Domain::IPV4, socket2::Type::STREAM, None).unwrap();
+        sock.bind(&std::net::SocketAddr::from(([127, 0, 0, 1], 0)).into()).unwrap();
+        sock.listen(0).unwrap();
+        let node = Node::start_on(sock.into(), true);
+        let addr = std::net::SocketAddr::from(([127, 0, 0, 1], node.port));
+        let (mut fill, mut full) = (Vec::new(), false);
+        for _ in 0..8 {
+            match TcpStream::connect_timeout(&addr, Duration::from_millis(150)) { Ok(s) => fill.push(s), Err(_) => { full = true; break; } }
+        }
+        (node, fill, full)
+    }
+    /// the busy node catches up: it accepts what is queued (waited for) and from now on accepts at once
+    fn release(&self, fill: Vec<TcpStream>) {
+        self.hold.store(false, Ordering::SeqCst);
+        let t0 = Instant::now();
+        while self.conns.lock().unwrap().len() < fill.len() && t0.elapsed() < Duration::from_secs(3) { std::thread::sleep(Duration::from_micros(200)); }
+        drop(fill);
+    }
+    fn start_on(l: TcpListener, hold: bool) -> Arc<Node> {
         let port = l.local_addr().unwrap().port();
-        let node = Arc::new(Node { port, mode: Mutex::new(B::Success), want_up: AtomicBool::new(true), is_up: AtomicBool::new(true), conns: Mutex::new(vec![]), requests: AtomicU64::new(0), stop: AtomicBool::new(false) });
+        let node = Arc::new(Node { port, mode: Mutex::new(B::Success), want_up: AtomicBool::new(true), is_up: AtomicBool::new(true), conns: Mutex::new(vec![]), requests: AtomicU64::new(0), stop: AtomicBool::new(false), hold: AtomicBool::new(hold) });
         let n = node.clone();
         std::thread::spawn(move || {
             let mut listener = Some(l);
             loop {
                 if n.stop.load(Ordering::SeqCst) { return; }
+                if n.hold.load(Ordering::SeqCst) { std::thread::sleep(Duration::from_micros(200)); continue; }
                 let want = n.want_up.load(Ordering::SeqCst);
                 if !want {
                     if listener.is_some() { listener = None; }
@@ -353,6 +382,102 @@ fn run_duo(kind: &str, max: usize, api: &str) -> String {
     out
 }
 
+/// polls a future (role 3: its attempts are not the scenario's) until it is pending for the `left`-th
+/// time, then gives up on it (`None`); the caller drops it, finished or not
+struct CutAfter<F> { fut: std::pin::Pin<Box<F>>, left: usize, polls: Arc<AtomicU64> }
+impl<F: std::future::Future> std::future::Future for CutAfter<F> {
+    type Output = Option<F::Output>;
+    fn poll(mut self: std::pin::Pin<&mut Self>, cx: &mut std::task::Context<'_>) -> std::task::Poll<Option<F::Output>> {
+        ROLE.with(|r| r.set(3));
+        let p = self.fut.as_mut().poll(cx);
+        ROLE.with(|r| r.set(0));
+        self.polls.fetch_add(1, Ordering::SeqCst);
+        match p {
+            std::task::Poll::Ready(v) => std::task::Poll::Ready(Some(v)),
+            std::task::Poll::Pending => { self.left = self.left.saturating_sub(1); if self.left == 0 { std::task::Poll::Ready(None) } else { std::task::Poll::Pending } }
+        }
+    }
+}
+
+/// no fleet call takes longer than max_attempts x (connect + timeout + delay) on a reachable node;
+/// a call that has not returned after this long is reported as `hung`
+const WATCHDOG: Duration = Duration::from_secs(5);
+
+/// `cut=<spec>`: the ordinary scenario with the empty script (the node is healthy the whole time: first
+/// call, follow-up calls, then one broadcast), run on a fleet on which one earlier call on the cold
+/// node was abandoned by its caller: the call future is polled and then dropped, as `select!` or
+/// `tokio::time::timeout` do. `cut=p<k>`: dropped when it is pending for the k-th time (k=1: inside the
+/// TCP connect; later: connected, request sent, waiting for the reply); `cut=t<us>`: dropped after that
+/// many microseconds. `busy=1`: until the abandoned call has been dropped the node is slow to accept
+/// (accept queue full), so the connection attempt stays pending for as long as the caller waits.
+/// `ab=S`: the node reads the abandoned call's request and does not answer it. The abandoned call's
+/// attempts are not counted (role 3) and its outcome is reported for information only (`ab=`).
+fn run_cut(max: usize, nfollow: usize, cut: &str, api: &str, rtk: &str, busy: bool, ab: B) -> String {
+    let (node, fill, full) = if busy { Node::start_busy() } else { (Node::start(), Vec::new(), false) };
+    *node.mode.lock().unwrap() = ab;
+    let cfg = NodeConfig::new("127.0.0.1", node.port).unwrap().with_name("n0").unwrap().with_timeout(TIMEOUT).unwrap();
+    let opts = FleetOptions { default_timeout: TIMEOUT, retry_policy: RetryPolicy { max_attempts: max, delay: Duration::from_millis(1) } };
+    let sc = Scenario { node: node.clone(), script: VecDeque::new(), attempts: 0 };
+    CUR.with(|c| *c.borrow_mut() = Some(sc));
+    let take_attempts = || CUR.with(|c| { let mut b = c.borrow_mut(); let s = b.as_mut().unwrap(); let a = s.attempts; s.attempts = 0; a });
+    let res_s = |v: bool, e: Option<&RepeError>| if v { if e.is_some() { "value+error".to_string() } else { "value".to_string() } } else { e.map(kind_s).unwrap_or_else(|| "noerror".into()) };
+    let msg = api == "msg";
+    let rt = if rtk == "mt" { tokio::runtime::Builder::new_multi_thread().worker_threads(2).enable_all().build().unwrap() }
+             else { tokio::runtime::Builder::new_current_thread().enable_all().build().unwrap() };
+    let mut out = String::new();
+    rt.block_on(async {
+        let fleet = AsyncFleet::with_options(vec![cfg], opts).unwrap();
+        // the abandoned call
+        let polls = Arc::new(AtomicU64::new(0));
+        let abandoned = {
+            let f2 = fleet.clone();
+            let call = async move {
+                if msg { let r = f2.call_message("n0", "/y").await.unwrap(); (r.value.is_some(), r.error) } else { let r = f2.call_json("n0", "/x", Some(&serde_json::json!(0))).await.unwrap(); (r.value.is_some(), r.error) }
+            };
+            let (left, after) = match cut.split_at(1) { ("p", k) => (k.parse::<usize>().unwrap(), None), (_, us) => (usize::MAX, Some(Duration::from_micros(us.parse::<u64>().unwrap()))) };
+            let wrapped = CutAfter { fut: Box::pin(call), left, polls: polls.clone() };
+            match after {
+                None => tokio::time::timeout(WATCHDOG, wrapped).await.unwrap_or(None),
+                Some(d) => tokio::time::timeout(d, wrapped).await.unwrap_or(None),
+            }
+            // the call future is dropped here, finished or not
+        };
+        let ab_s = match &abandoned { None => "cut".to_string(), Some((v, e)) => format!("done:{}", res_s(*v, e.as_ref())) };
+        // from here on the node is an ordinary healthy node
+        if busy { node.release(fill); }
+        take_attempts();
+        // the ordinary scenario (empty script)
+        let one = |i: usize| { let fleet = fleet.clone(); async move {
+            let r = if i % 2 == 1 { tokio::time::timeout(WATCHDOG, fleet.call_message("n0", "/y")).await.map(|r| { let r = r.unwrap(); (r.value.is_some(), r.error) }) }
+                    else { tokio::time::timeout(WATCHDOG, fleet.call_json("n0", "/x", if i == 0 { Some(serde_json::json!(1)) } else { None }.as_ref())).await.map(|r| { let r = r.unwrap(); (r.value.is_some(), r.error) }) };
+            match r { Ok((v, e)) => res_s(v, e.as_ref()), Err(_) => "hung".to_string() }
+        } };
+        let r = one(0).await;
+        // (once a call has hung the case has failed: what would follow is not performed and reported as `skipped`)
+        let mut hung = r == "hung";
+        let conn = tokio::time::timeout(WATCHDOG, fleet.is_connected("n0")).await.map(|c| (c.unwrap() as u8).to_string()).unwrap_or_else(|_| "hung".into());
+        out.push_str(&format!("att={:x} res={} conn={}", take_attempts(), r, conn));
+        let mut fl = Vec::new();
+        for i in 0..nfollow {
+            if hung { fl.push("0:skipped".to_string()); continue; }
+            let r = one(i + 1).await; hung = r == "hung"; fl.push(format!("{:x}:{}", take_attempts(), r));
+        }
+        out.push_str(&format!(" follow={}", if fl.is_empty() { "-".into() } else { fl.join(",") }));
+        // one broadcast to every node (no tags)
+        let bc = if hung { "skipped".to_string() } else { match tokio::time::timeout(WATCHDOG, fleet.broadcast_json("/x", Some(&serde_json::json!(2)), &[] as &[&str])).await {
+            Ok(m) => { let mut v: Vec<String> = m.into_iter().map(|(k, r)| format!("{}{}", k, if r.value.is_some() && r.error.is_none() { "" } else { "!" })).collect(); v.sort(); if v.is_empty() { "-".into() } else { v.join(",") } }
+            Err(_) => "hung".to_string(),
+        } };
+        out.push_str(&format!(" bc={} ab={} polls={:x} full={}", bc, ab_s, polls.load(Ordering::SeqCst), full as u8));
+    });
+    // a wedged node leaves tasks behind that never finish: do not wait for them
+    rt.shutdown_background();
+    CUR.with(|c| *c.borrow_mut() = None);
+    node.stop.store(true, Ordering::SeqCst);
+    node.close_conns();
+    out
+}
+
 /// broadcast to the nodes carrying all requested tags: exactly those nodes are
 /// addressed (request counters of the fake nodes) and exactly one result each
 fn run_tags(kind: &str, node_tags: &[u64], want: u64, dup: bool, slow: Option<usize>) -> String {
@@ -395,6 +520,14 @@ fn run_case(line: &str) -> String {
     if f.contains_key("duo") {
         let api = f.get("api").cloned().unwrap_or_else(|| "json".into());
         return guard(move || run_duo(&kind, max, &api)).unwrap_or_else(|_| "crash=panic".into());
+    }
+    if let Some(cut) = f.get("cut").cloned() {
+        let api = f.get("api").cloned().unwrap_or_else(|| "json".into());
+        let rtk = f.get("rt").cloned().unwrap_or_else(|| "ct".into());
+        let busy = f.get("busy").map(|b| b == "1").unwrap_or(false);
+        let ab = f.get("ab").and_then(|a| a.chars().next()).map(parse_b).unwrap_or(B::Success);
+        let nfollow: usize = f["nfollow"].parse().unwrap();
+        return guard(move || run_cut(max, nfollow, &cut, &api, &rtk, busy, ab)).unwrap_or_else(|_| "crash=panic".into());
     }
     let mon: usize = f.get("mon").and_then(|m| m.parse().ok()).unwrap_or(0);
     let script = if f["script"] == "-" { String::new() } else { f["script"].clone() };
@@ -459,6 +592,26 @@ fn gen_cases(_seed: u64, thorough: bool) -> Vec<String> {
     for kind in ["blocking", "async"] {
         for max in 1..=2usize {
             for api in ["json", "msg"] { cases.push(format!("kind={kind} duo=1 max={max} api={api}")); }
+        }
+    }
+    // an abandoned call (its future dropped at a cut point) on the cold node, then the ordinary scenario
+    // with the empty script: the node is healthy throughout, so the same model and oracle judge it
+    for max in [1usize, 3] {
+        for api in ["json", "msg"] {
+            for rt in ["ct", "mt"] {
+                // cut points on a promptly accepting node: k-th pending poll, or after some microseconds
+                for cut in ["p1", "p2", "p3", "p4", "t0", "t150", "t2000"] {
+                    cases.push(format!("kind=async max={max} script=- nfollow=2 cut={cut} api={api} rt={rt}"));
+                }
+                // the node is slow to accept: the connection attempt pends until the caller gives up
+                for cut in ["p1", "t1000", "t40000"] {
+                    if max == 3 || cut == "t40000" { cases.push(format!("kind=async max={max} script=- nfollow=2 cut={cut} api={api} rt={rt} busy=1")); }
+                }
+            }
+        }
+        // the node reads the abandoned call's request and does not answer: the caller gives up first
+        for rt in ["ct", "mt"] {
+            for cut in ["p2", "t5000", "t60000"] { cases.push(format!("kind=async max={max} script=- nfollow=2 cut={cut} api=json rt={rt} ab=S")); }
         }
     }
     cases.into_iter().enumerate().map(|(i, c)| format!("i={i} {c}")).collect()
